@@ -69,6 +69,27 @@ type scenario struct {
 	Prefix []ops.Op // common prefix (both branches)
 	A      []ops.Op // branch adopted first
 	B      []ops.Op // competing branch, must end strictly longer
+	// FailedSwitchFirst: before the valid competing branch, deliver a copy of it whose last momentum has a broken
+	// signature: the node rolls back, inserts the verified prefix of the side chain, fails, rolls back again and re-inserts
+	// its own momentums (every one of these commits and rollbacks is enumerated for crash points too)
+	FailedSwitchFirst bool
+}
+
+// deliverB performs the switch of a scenario on node n.
+func deliverB(n *vnode.Node, sc scenario, bt *built) {
+	side := bt.b[bt.prefixH-1:]
+	if sc.FailedSwitchFirst {
+		bad := vnode.CloneBatch(side)
+		last := bad[len(bad)-1]
+		last.Momentum.Signature[3] ^= 1
+		bad[len(bad)-1] = vnode.CloneDetailed(last)
+		if _, err, pan := n.InsertChain(bad); err == nil || pan != nil {
+			panic(fmt.Sprintf("the side chain with a broken last signature must be refused without panic: %v %v", err, pan))
+		}
+	}
+	if _, err, pan := n.InsertChain(vnode.CloneBatch(side)); err != nil || pan != nil {
+		panic(fmt.Sprintf("branch B: %v %v", err, pan))
+	}
 }
 
 func scenarios(tier string) []scenario {
@@ -104,6 +125,13 @@ func scenarios(tier string) []scenario {
 		Prefix: []ops.Op{M},
 		A:      append(append([]ops.Op{}, big...), M),
 		B:      append(append([]ops.Op{{K: "T", A: 0, B: 1, V: 3}, {K: "M", V: 1}}, big[:8]...), M),
+	})
+	sc = append(sc, scenario{
+		Name:              "failed-switch-then-switch/reorg-depth-2",
+		Prefix:            []ops.Op{{K: "T", A: 0, B: 1, V: 500}, M},
+		A:                 []ops.Op{{K: "Call", S: "stake", A: 1, V: 10}, M, {K: "R", A: 1}, M},
+		B:                 []ops.Op{{K: "T", A: 2, B: 3, V: 7}, {K: "M", V: 1}, M, {K: "Call", S: "refund", A: 5}, M},
+		FailedSwitchFirst: true,
 	})
 	if tier == "thorough" {
 		sc = append(sc, scenario{
@@ -161,7 +189,7 @@ type image struct {
 
 // crashFreeRun executes the scenario on a fresh node, calling onWrite before every leveldb write of the operations of
 // interest, and returns the boundary states (full digests at operation boundaries).
-func crashFreeRun(c *xs.Ctx, bt *built, onWrite func(n *vnode.Node, k int, site string, boundary int)) (boundaries []string, final string) {
+func crashFreeRun(c *xs.Ctx, sc scenario, bt *built, onWrite func(n *vnode.Node, k int, site string, boundary int)) (boundaries []string, final string) {
 	n := vnode.New(vnode.Options{Dir: c.TempDir(), NoPillars: true})
 	defer n.Destroy()
 	if bt.prefixH >= 2 {
@@ -196,9 +224,7 @@ func crashFreeRun(c *xs.Ctx, bt *built, onWrite func(n *vnode.Node, k int, site 
 	if _, err, pan := n.InsertChain(vnode.CloneBatch(bt.a[bt.prefixH-1:])); err != nil || pan != nil {
 		panic(fmt.Sprintf("branch A: %v %v", err, pan))
 	}
-	if _, err, pan := n.InsertChain(vnode.CloneBatch(bt.b[bt.prefixH-1:])); err != nil || pan != nil {
-		panic(fmt.Sprintf("branch B: %v %v", err, pan))
-	}
+	deliverB(n, sc, bt)
 	db.VerifWriteHook = nil
 	n.Chain.UnRegister(l)
 	return boundaries, n.FullDigest()
@@ -258,7 +284,7 @@ func runScenario(c *xs.Ctx, r *xs.Result, sc scenario, only int) {
 	bt := build(c, sc)
 	imgRoot := c.TempDir()
 	var images []image
-	boundaries, final := crashFreeRun(c, bt, func(n *vnode.Node, k int, site string, boundary int) {
+	boundaries, final := crashFreeRun(c, sc, bt, func(n *vnode.Node, k int, site string, boundary int) {
 		r.Add("sites", site)
 		if only >= 0 && k != only {
 			return
@@ -356,7 +382,7 @@ func childMain() {
 		n.Chain.Register(l)
 		db.VerifWriteHook = stop
 		n.InsertChain(vnode.CloneBatch(bt.a[bt.prefixH-1:]))
-		n.InsertChain(vnode.CloneBatch(bt.b[bt.prefixH-1:]))
+		deliverB(n, sc, bt)
 		os.Exit(0)
 	}
 	os.Exit(3)
